@@ -274,7 +274,7 @@ def joinValues : List Bytes → Bytes
 def dateLine (mode : Mode) (qs : Option Pairs) (hs : Pairs) : Bytes :=
   match mode with
   | .headerAuth =>
-    if (getUnique hs (v2b!"x-amz-date")).isNone then joinValues (getAll hs (v2b!"date")) else []
+    if (getAll hs (v2b!"x-amz-date")).isEmpty then joinValues (getAll hs (v2b!"date")) else []
   | .presignedUrl => ((qs.bind fun q => getUnique q (v2b!"Expires"))).getD []
 
 /-- `{CanonicalizedResource}` -/
@@ -329,7 +329,7 @@ structure Ctx where
 /-- `v2_check_header_auth` -/
 def checkHeaderAuth (hmac : Bytes → Bytes → Bytes) (b64 : Bytes → Bytes) (lookup : Bytes → Option Bytes)
     (c : Ctx) (accessKey signature : Bytes) : Verdict :=
-  let hasDate := !(getAll c.hs (v2b!"date")).isEmpty || (getUnique c.hs (v2b!"x-amz-date")).isSome
+  let hasDate := !(getAll c.hs (v2b!"date")).isEmpty || !(getAll c.hs (v2b!"x-amz-date")).isEmpty
   if !hasDate then .reject .InvalidRequest
   else match lookup accessKey with
     | none => .reject .NotSignedUp
